@@ -71,3 +71,18 @@ Example C17_examples :
   /\ may_touch (FPut (b "bucket-a") (b "x/y")) [b "bucket-b"; b "x"] = false.
 Proof. vm_compute. repeat split. Qed.
 Print Assumptions C17_examples.
+
+(* the flat root directory is a faithful map of side files keyed by (bucket, key): writing, deleting and a bucket's
+   prefix-based clean-up are invisible at every other key and bucket - also when one bucket name is a prefix of another *)
+Theorem C17_side_file_write_read : forall r bk k v bk' k', wf bk -> wf bk' -> wf k -> wf k' ->
+  meta_get (rf_put (metadata_name bk k None) v r) bk' k' = if beq bk bk' && beq k k' then Some v else meta_get r bk' k'.
+Proof. exact meta_put_get. Qed.
+Print Assumptions C17_side_file_write_read.
+Theorem C17_side_file_delete : forall r bk k bk' k', wf bk -> wf bk' -> wf k -> wf k' ->
+  meta_get (rf_del (metadata_name bk k None) r) bk' k' = if beq bk bk' && beq k k' then None else meta_get r bk' k'.
+Proof. exact meta_del_get. Qed.
+Print Assumptions C17_side_file_delete.
+Theorem C17_bucket_cleanup_exact : forall r bk bk' k', wf bk -> wf bk' ->
+  meta_get (rf_del_bucket bk r) bk' k' = if beq bk bk' then None else meta_get r bk' k'.
+Proof. exact meta_del_bucket_get. Qed.
+Print Assumptions C17_bucket_cleanup_exact.
